@@ -7,7 +7,7 @@ WT=/tmp/confirm_${P}_m${K}
 DST=/verif/seeded/${P}-m${K}
 rm -rf "$WT"; git -C /repo worktree prune; git -C /repo worktree add -q --detach "$WT" HEAD || exit 2
 mkdir -p "$DST"; cp "$SRC/patch.diff" "$SRC/demo.py" "$DST/"; [ -f "$SRC/notes.md" ] && cp "$SRC/notes.md" "$DST/"
-cd "$WT"
+cd "$WT"; export PYTHONPATH="$WT"
 mkdir -p _seed && cp "$SRC/demo.py" _seed/demo.py
 /venv/bin/python _seed/demo.py > /tmp/confirm_${P}_${K}_clean.txt 2>&1; CLEAN=$?
 if git apply --check "$DST/patch.diff" 2>/dev/null; then APPLIES=true; git apply "$DST/patch.diff"; else APPLIES=false; fi
